@@ -25,7 +25,7 @@ ASSUMPTIONS = [
     'numeric folds (avg/min/max/multiply) see >=1 non-null source per row; numeric sources are int/Decimal (no float mixing)',
     'find_replace is applied to string fields only',
 ]
-BUDGET = {'quick': dict(examples=2400, shards=8, seconds=70),
+BUDGET = {'quick': dict(examples=4800, shards=16, seconds=70),
           'thorough': dict(examples=200000, shards=16, seconds=1200)}
 
 META = set('.+|()[] ')
